@@ -157,16 +157,17 @@ def Seg.eqRS232 (a b : Seg) : Bool :=
   a.timedelta == b.timedelta && a.segmentlen == b.segmentlen && a.errorcode == b.errorcode &&
   a.flags == b.flags && a.block_status == b.block_status && a.sync_bytes == b.sync_bytes && a.data == b.data
 
-/-- Python's `l == r` for two segment objects.  `RS232Segment` overrides `__eq__` (and demands an
-    RS232Segment operand); every other class inherits `NPDSegment.__eq__`, which accepts any segment.
-    When `r`'s class is a proper subclass of `l`'s class that overrides `__eq__` (only: `l` a plain
-    NPDSegment, `r` an RS232Segment) Python tries the reflected method first. -/
+/-- Python's `l == r` for two segment objects.  `NPDSegment.__eq__` (inherited by the ACQ, A429,
+    PCM-packetizer and 1553 classes) demands `type(other) is type(self)`; `RS232Segment` overrides
+    `__eq__` and demands an RS232Segment operand (it has no subclasses).  When `r`'s class is a proper
+    subclass of `l`'s class that overrides `__eq__` (only: `l` a plain NPDSegment, `r` an RS232Segment)
+    Python tries the reflected method first, which also answers False. -/
 def Seg.eq (l r : Seg) : Bool :=
-  match l.kind, r.kind with
-  | .rs232, .rs232 => Seg.eqRS232 l r
-  | .rs232, _ => false
-  | .base, .rs232 => false
-  | _, _ => Seg.eqBase l r
+  if l.kind = r.kind then
+    match l.kind with
+    | .rs232 => Seg.eqRS232 l r
+    | _ => Seg.eqBase l r
+  else false
 
 /-! ### NPD -/
 
